@@ -160,9 +160,9 @@ class DiagonalNormal(Distribution):
                 )
             )
 
-        # Compute parameters.
-        means = self.mean_
-        log_stds = self.log_std_
+        # Compute parameters (stored flat, one row; reshape to the event shape).
+        means = self.mean_.reshape(1, *self._shape)
+        log_stds = self.log_std_.reshape(1, *self._shape)
 
         # Compute log prob.
         norm_inputs = (inputs - means) * torch.exp(-log_stds)
@@ -177,4 +177,4 @@ class DiagonalNormal(Distribution):
         raise NotImplementedError()
 
     def _mean(self, context):
-        return self.mean
+        return self.mean_.reshape(self._shape)
